@@ -11,14 +11,14 @@ ID = "C15"
 LEVEL = "exploration"
 DESIGN_REF = "DESIGN.md §3 C15"
 RULE = (
-    "Hypothesis universes over worlds (<= 6 vertices, <= 10 links of 6 classes incl. self-loops, parallel edges, "
+    "Hypothesis universes over worlds (<= 6 vertices, <= 10 links of 7 classes incl. self-loops, parallel edges, "
     "mixed directed/undirected/unknown-class links, links leaving the universe, vertices carrying unrelated "
     "attributes), rvfunc = index title or default, refunc optional.  Oracle on the returned network: node ids are "
     "0..n-1 in universe order with label rvfunc(v) (hex(id(v)) by default); every edge joins two node ids that are "
     "joined by at least one link; the multiset of arrowed edges (from,to) equals the multiset of (index(v1), "
     "index(v2)) over directed-family links with both ends members; an arrow-less edge implies a non-directed link "
     "joining that pair; every link with both ends members (self-loops included) leaves its pair joined by >= 1 edge. "
-    "Non-trivial = >= 1 directed and >= 1 undirected internal link, or an internal self-loop, or a link leaving the "
+    "Each case exports two universes over the same vertices one after the other (the second contains members linked to non-members that were members of the first) and requires that no vertex gained an attribute.  Non-trivial = >= 1 directed and >= 1 undirected internal link, or an internal self-loop, or a link leaving the "
     "universe; distinct = distinct case value."
 )
 ASSUMPTIONS = [
@@ -41,14 +41,31 @@ def strategy(tier):
 
 
 def check_case(case):
-    from edgegraph.output import pyvis
-    from edgegraph.structure import DirectedEdge
+    from edgegraph.structure import Universe
 
     vs, ls, u = render.build(case)
     for k, v in enumerate(vs):
         if (case["extra"] >> (k % 3)) & 1:
             v.payload = {"k": k}
             v.label = "unrelated"
+    attrs_before = [sorted(vars(v)) for v in vs]
+    info = _check_export(case, vs, ls, u)
+    # a second export, of another universe over the same vertices (the complement plus the first member, in
+    # reverse order): nothing of the first export may influence it, and no vertex may have gained an attribute
+    first = u.vertices[:1]
+    rest = [v for v in reversed(vs) if all(v is not m for m in u.vertices)]
+    u2 = Universe(vertices=rest + first if (case["opt"] & 8) else rest)
+    require([sorted(vars(v)) for v in vs] == attrs_before, "export-left-attribute", "a vertex gained or lost an attribute during make_pyvis_net")
+    info2 = _check_export(case, vs, ls, u2)
+    require([sorted(vars(v)) for v in vs] == attrs_before, "export-left-attribute", "a vertex gained or lost an attribute during the second export")
+    info["classes"] = sorted(set(info["classes"]) | {"second-export:" + c for c in info2["classes"] if c in ("link-leaving-universe",)})
+    return info
+
+
+def _check_export(case, vs, ls, u):
+    from edgegraph.output import pyvis
+    from edgegraph.structure import DirectedEdge
+
     title = lambda v: "n%d" % v.i
     use_rv = bool(case["opt"] & 1)
     use_re = bool(case["opt"] & 2)
